@@ -195,9 +195,19 @@ func c07Race(cfg c07Cfg, nthreads, bound int) vh.Unit {
 }
 
 func c07RaceOn(driver string, cfg c07Cfg, nthreads, bound int) vh.Unit {
+	return c07RaceVariant(driver, cfg, nthreads, bound, "")
+}
+
+// variant "first-settlement-fails": the first settlement attempt (whichever request makes it) fails,
+// so the balance is still there for the requests behind it. variant "with-link": one of the racing
+// requests of the wallet is a pool_addNode instead of a withdrawal.
+func c07RaceVariant(driver string, cfg c07Cfg, nthreads, bound int, variant string) vh.Unit {
 	name := fmt.Sprintf("payout-race/min%s-fee%s/x%d", cfg.min, cfg.fee, nthreads)
 	if driver != vh.Memory {
 		name = fmt.Sprintf("payout-race/%s/min%s-fee%s/x%d", driver, cfg.min, cfg.fee, nthreads)
+	}
+	if variant != "" {
+		name += "/" + variant
 	}
 	cast := vh.StdCast()
 	var pw *vh.PoolWorld
@@ -212,10 +222,20 @@ func c07RaceOn(driver string, cfg c07Cfg, nthreads, bound int) vh.Unit {
 		pw.Store.AddAccountBalance(store.Account(W.Wallet), big.NewInt(900))
 		pw.BStore.Deposits[store.Account(W.Wallet)] = big.NewInt(300)
 		pw.YieldPoints = true
+		if variant == "first-settlement-fails" {
+			pw.SettleOK = func(n int) bool { return n > 0 }
+		}
 		var fns []func()
 		var names []string
 		for i := 0; i < nthreads; i++ {
 			i := i
+			if variant == "with-link" && i == 0 {
+				node := cast.ByName["C2"]
+				pw.Raw.SetNode(store.Node{ID: store.NodeID(node.NodeID), Kind: "geth", LastSeen: vsched.Now()})
+				fns = append(fns, func() { res[i] = nil; pw.AddNode(W, node.NodeID) })
+				names = append(names, "link")
+				continue
+			}
 			fns = append(fns, func() { res[i] = pw.Withdraw(W) })
 			names = append(names, fmt.Sprintf("wd%d", i))
 		}
@@ -246,7 +266,7 @@ func c07RaceOn(driver string, cfg c07Cfg, nthreads, bound int) vh.Unit {
 						ok++
 					}
 				}
-				if ok == 0 {
+				if ok == 0 && variant != "first-settlement-fails" { // (there the request with the highest nonce may be the one that fails)
 					return "payout-race/nobody-paid", fmt.Sprintf("config %+v: none of %d racing withdrawals succeeded: %v", cfg, nthreads, res)
 				}
 				return "", ""
@@ -633,6 +653,7 @@ func init() {
 					bound = 4
 				}
 				us = append(us, c07Race(cfg, 2, bound), c07Race(cfg, 3, bound-1))
+				us = append(us, c07RaceVariant(vh.Memory, cfg, 3, bound, "first-settlement-fails"), c07RaceVariant(vh.Memory, cfg, 3, bound, "with-link"))
 				us = append(us, c07RaceOn(vh.Badger, cfg, 2, bound-1), c07RPCSurface(cfg))
 				cd, cn := 4, 5
 				if tier == "thorough" {
